@@ -55,6 +55,9 @@ def extract():
                 errors.TimeoutError: "pyroTimeout", errors.CommunicationError: "communication", errors.PyroError: "pyroError",
                 errors.SecurityError: "security", OSError: "osError", socket.timeout: "sockTimeout",
                 KeyboardInterrupt: "keyboardInterrupt"}
+    from Pyro5 import serializers
+    if serializers.MarshalSerializer.serializer_id != c05_gen.MARSHAL_ID:
+        raise ValueError("marshal serializer id changed")
     if socket.timeout is OSError:
         raise ValueError("socket.timeout is OSError on this interpreter")
 
@@ -421,7 +424,7 @@ def _run(ctx, name, n, do_model):
 
 
 def correspondence(ctx):
-    _run(ctx, "hist", ctx.n(500, 25000), True)
+    _run(ctx, "hist", ctx.n(1200, 25000), True)
 
 
 def oracle(ctx):
